@@ -246,6 +246,17 @@ def do_replay(mod, case):
                     "observed": str(h), "allowed": "termination",
                     "explanation": str(h),
                     "fingerprint": case.get("fingerprint")}
+        except Exception as ex:
+            # the recorded case makes the code under test (or the replay of it) raise: the case is
+            # still a reproducible failure of the recorded program, reported with what was raised
+            import traceback
+            where = traceback.extract_tb(ex.__traceback__)[-1]
+            return {"check": case.get("check"), "program": case.get("program"),
+                    "observed": "%s; on replay: %r raised at %s:%s" % (case.get("observed"), ex, where.filename,
+                                                                         where.lineno),
+                    "allowed": case.get("allowed"),
+                    "explanation": "%s (replay raised %r)" % (case.get("explanation"), ex),
+                    "fingerprint": case.get("fingerprint")}
 
 
 def main(argv=None):
